@@ -211,7 +211,7 @@ where
 
         let ab_base2k: usize = a.base2k().as_usize();
         assert_eq!(b.base2k().as_usize(), ab_base2k);
-        assert_eq!(a_effective_k.div_ceil(ab_base2k), a.size());
+        let a: &GLWE<&[u8]> = &prefix_view(a, a_effective_k);
         assert_eq!(b_effective_k.div_ceil(ab_base2k), b.size());
         let res_base2k: usize = res.base2k().as_usize();
 
@@ -275,18 +275,23 @@ where
 
         let ab_base2k: usize = a.base2k().as_usize();
         assert_eq!(res.base2k().as_usize(), ab_base2k);
-        assert_eq!(res_effective_k.div_ceil(ab_base2k), res.size());
         assert_eq!(a_effective_k.div_ceil(ab_base2k), a.size());
 
         let cols: usize = res.rank().as_usize() + 1;
 
-        let (mut res_prep, scratch_1) = scratch.take_cnv_pvec_left(self, cols, res.size());
+        // limbs of `res` consumed as input (the output is written over all of its limbs)
+        let res_in_size: usize = res_effective_k.div_ceil(ab_base2k);
+
+        let (mut res_prep, scratch_1) = scratch.take_cnv_pvec_left(self, cols, res_in_size);
         let (mut a_prep, scratch_2) = scratch_1.take_cnv_pvec_right(self, 1, a.size());
 
         let mask_res = msb_mask_bottom_limb(ab_base2k, res_effective_k);
         let mask_a = msb_mask_bottom_limb(ab_base2k, a_effective_k);
 
-        self.cnv_prepare_left(&mut res_prep, res.data(), mask_res, scratch_2);
+        {
+            let res_in: GLWE<&[u8]> = prefix_view(res_ref, res_effective_k);
+            self.cnv_prepare_left(&mut res_prep, res_in.data(), mask_res, scratch_2);
+        }
         self.cnv_prepare_right(&mut a_prep, a.data(), mask_a, scratch_2);
 
         let (cnv_offset_hi, cnv_offset_lo) = if cnv_offset < ab_base2k {
@@ -295,7 +300,7 @@ where
             ((cnv_offset / ab_base2k).saturating_sub(1), (cnv_offset % ab_base2k) as i64)
         };
 
-        let res_dft_size = a.size() + res.size() - cnv_offset_hi;
+        let res_dft_size = a.size() + res_in_size - cnv_offset_hi;
 
         for i in 0..cols {
             let (mut res_dft, scratch_3) = scratch_2.take_vec_znx_dft(self, 1, res_dft_size);
@@ -644,7 +649,7 @@ where
 
         let a_base2k: usize = a.base2k().as_usize();
 
-        assert_eq!(a_effective_k.div_ceil(a_base2k), a.size());
+        let a: &GLWE<&[u8]> = &prefix_view(a, a_effective_k);
 
         let res_base2k: usize = res.base2k().as_usize();
         let cols: usize = res.rank().as_usize() + 1;
@@ -734,8 +739,8 @@ where
 
         let ab_base2k: usize = a.base2k().as_usize();
         assert_eq!(b.base2k().as_usize(), ab_base2k);
-        assert_eq!(a_effective_k.div_ceil(ab_base2k), a.size());
-        assert_eq!(b_effective_k.div_ceil(ab_base2k), b.size());
+        let a: &GLWE<&[u8]> = &prefix_view(a, a_effective_k);
+        let b: &GLWE<&[u8]> = &prefix_view(b, b_effective_k);
 
         let res_base2k: usize = res.base2k().as_usize();
 
@@ -855,8 +860,8 @@ where
 
         let ab_base2k: usize = a.base2k().as_usize();
         assert_eq!(b.base2k().as_usize(), ab_base2k);
-        assert_eq!(a_effective_k.div_ceil(ab_base2k), a.size());
-        assert_eq!(b_effective_k.div_ceil(ab_base2k), b.size());
+        let a: &GLWE<&[u8]> = &prefix_view(a, a_effective_k);
+        let b: &GLWE<&[u8]> = &prefix_view(b, b_effective_k);
 
         let res_base2k: usize = res.base2k().as_usize();
         let cols: usize = res.rank().as_usize() + 1;
@@ -929,6 +934,31 @@ where
                 }
             }
         }
+    }
+}
+
+/// Read-only view of `a` restricted to the limbs that carry `effective_k` bits.
+///
+/// The products below consume exactly `ceil(effective_k / base2k)` limbs of an operand. An operand may store more
+/// limbs than that (e.g. after a rescale that lowered its precision without reallocating): the excess limbs lie
+/// below the effective precision and are ignored.
+fn prefix_view<D: DataRef>(a: &GLWE<D>, effective_k: usize) -> GLWE<&[u8]> {
+    let size: usize = effective_k.div_ceil(a.base2k().as_usize());
+    assert!(
+        size <= a.size(),
+        "effective_k={effective_k} needs {size} limbs but the operand stores {}",
+        a.size()
+    );
+    let d: &VecZnx<D> = a.data();
+    GLWE {
+        data: VecZnx {
+            data: d.data.as_ref(),
+            n: d.n,
+            cols: d.cols,
+            size,
+            max_size: d.max_size,
+        },
+        base2k: a.base2k(),
     }
 }
 
